@@ -49,7 +49,7 @@ VEC = [(1, 0), (1, 1), (0, 1), (-1, 0), (-1, -1), (0, -1)]
 def plan(tier):
     n = QN if tier == "quick" else TN
     return [("size", n * n), ("boards", 3 if tier == "quick" else 30),
-            ("fpga_ids", 1)]
+            ("fpga_ids", 1), ("bigroot", 60 if tier == "quick" else 1500)]
 
 
 def gen(cls, idx, rng, tier):
@@ -60,6 +60,14 @@ def gen(cls, idx, rng, tier):
         else:
             roots = list(range(144))
         return dict(kind="size", w=idx // n + 1, h=idx % n + 1, roots=roots)
+    if cls == "bigroot":
+        # the root chip is any Ethernet chip of the machine, e.g. (16, 20)
+        w, h = rng.choice([(12, 12), (24, 12), (36, 24), (48, 48), (20, 20),
+                           (8, 8), (rng.randint(1, 48), rng.randint(1, 48))])
+        return dict(kind="size", w=w, h=h, roots=[], big=[
+            (rng.choice([0, 4, 8]) + 12 * rng.randint(1, 5) + d,
+             rng.choice([0, 8, 4]) + 12 * rng.randint(1, 5) + d)
+            for d in (0, 0, rng.randint(0, 11))])
     if cls == "boards":
         return dict(kind="boards", lo=idx * 1000 + (0 if idx == 0 else 1),
                     hi=(idx + 1) * 1000)
@@ -92,15 +100,17 @@ def run(case, ctx):
     W, H = ((w + 11) // 12) * 12, ((h + 11) // 12) * 12
     links = list(Links)
     most = 0
-    for r in range(144):
-        rx, ry = r % 12, r // 12
+    root_list = [(r % 12, r // 12, r) for r in range(144)] if not \
+        case.get("big") else [(rx_, ry_, -1) for rx_, ry_ in case["big"]]
+    for rx, ry, r in root_list:
         lst = [tuple(c) for c in g.spinn5_eth_coords(w, h, rx, ry)]
         ctx.hit("eth_list")
         exp = set()
         for ex, ey in ETH:
             for i in range(-1, W // 12 + 1):
                 for j in range(-1, H // 12 + 1):
-                    px, py = rx + ex + 12 * i, ry + ey + 12 * j
+                    # the lattice is invariant under shifts by 12
+                    px, py = rx % 12 + ex + 12 * i, ry % 12 + ey + 12 * j
                     if torus:
                         exp.add((px % w, py % h))
                     elif 0 <= px < w and 0 <= py < h:
@@ -111,7 +121,7 @@ def run(case, ctx):
         check(set(lst) == exp, "eth-list", "got %r want %r" %
               (sorted(lst), sorted(exp)), **where)
         most = max(most, len(exp))
-        if r not in case["roots"]:
+        if r not in case["roots"] and r != -1:
             continue
         for x in range(w):
             for y in range(h):
